@@ -39,7 +39,7 @@ func TestMain(m *testing.M) {
 	stats.Assume(
 		"the real multi-cluster token-review authenticator and subject-access-review authorizer run against a stub ClientProvider (host -> ClusterInfo + per-cluster fake kube clientset, or 'cannot be asked')",
 		"every cluster answers the same token / the same (user, attributes) differently (user name carries the cluster id; allow / deny / no opinion / error tables differ); the table of a cluster incarnation never changes, so cached and fresh answers of the right cluster coincide",
-		"review errors are of a kind the webhook helper does not retry (otherwise each costs seconds)",
+		"scripted review errors are of a kind the webhook helper does not retry, except in the op that fails a first attempt on purpose (retry backoff shortened to 1 ms by a verif hook)",
 		"after a cluster is stopped the harness waits for the cache-teardown goroutines before the next step",
 		"Go runtime, pgregory.net/rapid v1.3.0, client-go fake clientset",
 	)
@@ -64,6 +64,9 @@ type clusterSim struct {
 	sar         map[string]answer
 	gate        chan struct{} // if set, the next review blocks until it is closed (guarded by provider.mu)
 	arrived     chan struct{} // signalled when a review reached the gate
+	// failNextSAR: the next access review fails with an error the webhook helper retries (guarded by provider.mu);
+	// the function runs while that attempt is being answered
+	failNextSAR func()
 }
 
 // wait blocks a review at the gate of the cluster, if one is set.
@@ -132,6 +135,14 @@ func newClusterSim(p *provider, id string, tokens, sar map[string]answer) *clust
 		p.invoked = append(p.invoked, id)
 		p.mu.Unlock()
 		c.wait(p)
+		p.mu.Lock()
+		failing := c.failNextSAR
+		c.failNextSAR = nil
+		p.mu.Unlock()
+		if failing != nil {
+			failing()
+			return true, nil, apierrors.NewInternalError(fmt.Errorf("transient failure of %s", id))
+		}
 		r := action.(clienttesting.CreateAction).GetObject().(*authorizationv1.SubjectAccessReview).DeepCopy()
 		switch c.sar[sarKey(r.Spec)] {
 		case allow:
@@ -197,7 +208,7 @@ func ctxFor(host string) context.Context {
 }
 
 func TestPropNoCrossClusterDecisions(t *testing.T) {
-	sub := stats.NewSub("request-sequences-over-hosts", "rapid: 2-3 clusters x 1-2 hosts each, per-cluster answer tables (token -> user / reject / error; (user, attributes) -> allow / deny / no opinion / error) that differ between clusters for the same key, cache TTLs in {0, 50 ms, 10 min}; a sequence of 5-40 ops: authenticate(host, token), authorize(host, user, attributes), cluster cannot be asked on/off, stop + recreate a cluster with new tables, an alias re-homed to another cluster (also while a review for it is in flight at the old cluster: later requests must get the new cluster's answer), and the same token / (user, attributes) presented to two clusters at the same time (the first review is held at its cluster until the second request was decided); oracle: every result is the answer of the host's own cluster (the user name carries the cluster id), only that cluster's API is invoked during the request, a cluster that cannot be asked yields not-authenticated / deny with an error; non-trivial = the same token / (user, attributes) was presented to >= 2 clusters with different answers while caching is on; distinct by FNV-64 of the op trace")
+	sub := stats.NewSub("request-sequences-over-hosts", "rapid: 2-3 clusters x 1-2 hosts each, per-cluster answer tables (token -> user / reject / error; (user, attributes) -> allow / deny / no opinion / error) that differ between clusters for the same key, cache TTLs in {0, 50 ms, 10 min}; a sequence of 5-40 ops: authenticate(host, token), authorize(host, user, attributes), cluster cannot be asked on/off, stop + recreate a cluster with new tables, an alias re-homed to another cluster (also while a review for it is in flight at the old cluster: later requests must get the new cluster's answer; or between a failed first attempt of a review and its retry: the request is decided by the cluster it was resolved to), and the same token / (user, attributes) presented to two clusters at the same time (the first review is held at its cluster until the second request was decided); oracle: every result is the answer of the host's own cluster (the user name carries the cluster id), only that cluster's API is invoked during the request, a cluster that cannot be asked yields not-authenticated / deny with an error; non-trivial = the same token / (user, attributes) was presented to >= 2 clusters with different answers while caching is on; distinct by FNV-64 of the op trace")
 	known := findings.Open(aliasMoveFinding)
 	stats.Check(t, stats.N(1500, 10000), func(t *rapid.T) {
 		p := &provider{hosts: map[string]*clusterSim{}}
@@ -207,6 +218,7 @@ func TestPropNoCrossClusterDecisions(t *testing.T) {
 		failTTL := rapid.SampledFrom(ttls).Draw(t, "failureTTL")
 		authn := tokenwebhook.NewMultiClusterTokenReviewAuthenticator(p, okTTL, failTTL, nil)
 		authz := sarwebhook.NewMultiClusterSubjectAccessReviewAuthorizer(p, okTTL, failTTL)
+		sarwebhook.VerifSetInitialBackoff(authz, time.Millisecond) // retried attempts follow each other quickly
 		var sims []*clusterSim
 		incarnation := map[int]int{}
 		var hosts []string
@@ -315,7 +327,7 @@ func TestPropNoCrossClusterDecisions(t *testing.T) {
 		}
 		steps := rapid.IntRange(5, 40).Draw(t, "steps")
 		for i := 0; i < steps; i++ {
-			switch rapid.IntRange(0, 15).Draw(t, "op") {
+			switch rapid.IntRange(0, 16).Draw(t, "op") {
 			case 0:
 				c := rapid.IntRange(0, nClusters-1).Draw(t, "cluster")
 				sims[c].unavailable = !sims[c].unavailable
@@ -373,6 +385,45 @@ func TestPropNoCrossClusterDecisions(t *testing.T) {
 					}
 				}
 				judgeAuthn(t, h, tok, s, resp, ok, err)
+			case 16:
+				// the first attempt of a review fails with a retriable error and the alias is re-homed to another cluster
+				// before the retry: the request was resolved to the old cluster and must be decided by it
+				h := rapid.SampledFrom(hosts).Draw(t, "host")
+				if !strings.HasPrefix(h, "alias") || known {
+					continue
+				}
+				from := owner[h]
+				to := rapid.IntRange(0, nClusters-1).Draw(t, "to")
+				if to == from || sims[from].unavailable || sims[to].unavailable {
+					continue
+				}
+				u := rapid.SampledFrom(users).Draw(t, "user")
+				a := sarAttrs[rapid.IntRange(0, len(sarAttrs)-1).Draw(t, "attrs")]
+				a.User = &user.DefaultInfo{Name: u}
+				sOld, sNew := sims[from], sims[to]
+				moved := false
+				p.mu.Lock()
+				sOld.failNextSAR = func() {
+					p.mu.Lock()
+					p.hosts[h] = sNew
+					p.mu.Unlock()
+					moved = true
+				}
+				p.mu.Unlock()
+				dec, reason, err := authz.Authorize(ctxFor(h), a)
+				p.mu.Lock()
+				sOld.failNextSAR = nil
+				p.hosts[h] = sNew
+				p.mu.Unlock()
+				owner[h] = to
+				trace += fmt.Sprintf("move-during-retry(%s->c%d,%s)=%v,moved=%v;", h, to, attrKey(u, a), dec, moved)
+				if moved {
+					judgeAuthz(t, u, a, sOld, dec, reason, err)
+					sub.Class("alias-moved-between-two-attempts-of-a-review")
+				} else {
+					// decided from the cache of the host, bound to the old cluster
+					judgeAuthz(t, u, a, sOld, dec, reason, err)
+				}
 			case 14, 15:
 				// an alias is re-homed to another cluster WHILE a review for it is in flight at its old cluster; the late
 				// answer of the old cluster must not decide later requests for the alias
